@@ -261,6 +261,15 @@ class NativeMaster:
             poke(self.i_rr, rr)
 
 
+class MemGroup:
+    """Memory shared by several NativeMemSlave ports."""
+
+    def __init__(self):
+        self.mem = {}
+        self.seq = 0
+        self.members = []
+
+
 class NativeMemSlave:
     """Native-port memory stub with the real crossbar's contract (DESIGN.md §4.2).
 
@@ -274,7 +283,7 @@ class NativeMemSlave:
     """
 
     def __init__(self, sim, port, cmd_ready=None, max_out=8, wl1=1, rl1=3, extra=None, viol=None,
-                 name="mem", on_cmd=None, honour_wvalid=False):
+                 name="mem", on_cmd=None, honour_wvalid=False, group=None):
         self.sim = sim
         self.name = name
         self.nbytes = port.data_width // 8
@@ -291,10 +300,13 @@ class NativeMemSlave:
         self.extra = list(extra) if extra else [0]
         self.viol = viol
         self.on_cmd = on_cmd
-        self.mem = {}
+        # ports sharing one memory (same-address order across ports = acceptance order, as through one bank)
+        self.group = group if group is not None else MemGroup()
+        self.group.members.append(self)
+        self.mem = self.group.mem
         self.cyc = 0
         self.cr = 0
-        self.pend = []          # accepted, not yet granted: [we, addr, earliest_grant]
+        self.pend = []          # accepted, not yet granted: [we, addr, earliest_grant, seq, snap]
         self.wpipe = []         # granted writes: [due_cycle, addr]
         self.rpipe = []         # granted reads: [due_cycle, data]
         self.wr_now = None      # address whose strobe is currently driven
@@ -310,6 +322,25 @@ class NativeMemSlave:
         v = self.mem.get(a)
         return init_word(a, self.nbytes) if v is None else v
 
+    def _blocked(self, e):
+        """A read is not granted while another port of the group still has an earlier-accepted write to the same
+        address in flight (through the real core both go through one bank, in acceptance order)."""
+        if e[0] or len(self.group.members) == 1:
+            return False
+        a, seq = e[1], e[3]
+        for g in self.group.members:
+            if g is self:
+                continue
+            if g.wr_now is not None and g.wr_now[0] == a and g.wr_now[2] < seq:
+                return True
+            for w in g.wpipe:
+                if w[1] == a and w[3] < seq:
+                    return True
+            for w in g.pend:
+                if w[0] and w[1] == a and w[3] < seq:
+                    return True
+        return False
+
     def idle(self):
         return not self.pend and not self.wpipe and not self.rpipe and self.wr_now is None and not self.rv
 
@@ -323,18 +354,23 @@ class NativeMemSlave:
             k = self.ncmd
             self.ncmd += 1
             self.out += 1
-            self.pend.append([we, a, cyc + 2 + self.extra[k % len(self.extra)]])
+            self.group.seq += 1
+            self.pend.append([we, a, cyc + 2 + self.extra[k % len(self.extra)], self.group.seq, None])
             if self.on_cmd:
                 self.on_cmd(we, a)
             sim.ev(self.name, "cmd", we, a)
         # observe: write data strobe was high during the last cycle
         if self.wr_now is not None:
-            a, wgrant = self.wr_now
+            a, wgrant, wseq = self.wr_now
             self.wr_now = None
-            # reads granted before this write must not see it: fix their value now
-            for r in self.rpipe:
-                if r[1] == a and r[2] is None and r[3] < wgrant:
-                    r[2] = self.read_word(a)
+            # reads accepted before this write (on any port of the group) must not see it: fix their value now
+            for g in self.group.members:
+                for r in g.rpipe:
+                    if r[1] == a and r[2] is None and r[4] < wseq:
+                        r[2] = self.read_word(a)
+                for r in g.pend:
+                    if not r[0] and r[1] == a and r[4] is None and r[3] < wseq:
+                        r[4] = self.read_word(a)
             data, we, valid = S[self.i_wd], S[self.i_wwe], S[self.i_wv]
             if not valid:
                 self.nwlost += 1
@@ -358,22 +394,22 @@ class NativeMemSlave:
                                   "%s: read data returned while the port was not ready to take it" % self.name)
             self.out -= 1
         # grant (in order, one per cycle)
-        if self.pend and self.pend[0][2] <= cyc:
-            we, a, _ = self.pend.pop(0)
+        if self.pend and self.pend[0][2] <= cyc and not self._blocked(self.pend[0]):
+            we, a, _, seq, snap = self.pend.pop(0)
             if we:
-                self.wpipe.append([cyc + self.wl1, a, cyc])
+                self.wpipe.append([cyc + self.wl1, a, cyc, seq])
             else:
-                self.rpipe.append([cyc + self.rl1, a, None, cyc])
+                self.rpipe.append([cyc + self.rl1, a, snap, cyc, seq])
         # drive write strobe
         if self.wpipe and self.wpipe[0][0] <= cyc:
-            _, a, g = self.wpipe.pop(0)
-            self.wr_now = (a, g)
+            _, a, g, seq = self.wpipe.pop(0)
+            self.wr_now = (a, g, seq)
             poke(self.i_wr, 1)
         else:
             poke(self.i_wr, 0)
         # drive read data
         if self.rpipe and self.rpipe[0][0] <= cyc:
-            _, a, snap, _g = self.rpipe.pop(0)
+            _, a, snap, _g, _seq = self.rpipe.pop(0)
             v = self.read_word(a) if snap is None else snap
             self.rv = 1
             poke(self.i_rv, 1)
